@@ -166,3 +166,10 @@ Proof.
   unfold clean_cache_v, clean_cache. simpl. rewrite rebuild_id.
   destruct (_ || _); reflexivity.
 Qed.
+
+(* ---------------------------------------------------------------- the waiter's retry: with the `for ok` loop (the code as it
+   is) the retry region is the lookup region *)
+Lemma blind_retry_off var rt : v_retry_recheck var = true -> blind_retry var rt = false.
+Proof. intros H. unfold blind_retry. rewrite H. destruct rt; reflexivity. Qed.
+Lemma blind_retry_repaired rt : blind_retry repaired rt = false.
+Proof. apply blind_retry_off. reflexivity. Qed.
